@@ -27,8 +27,10 @@ CONFIG = {
                   "(graph, subject); the writers never change which subject a table entry stands for and, for any input stream, no Root "
                   "subject of any graph is left unwritten at the end of serialize (roots_all_written_partial, incl. that the loop over the "
                   "named graphs never meets a None graph name); blank nodes deferred at the nesting cap (MAX_BNODE_NESTING, regenerated "
-                  "from /repo) are each described by a write_tree of their own and nothing stays deferred (deferred_all_written_partial, "
-                  "nothing_left_deferred; up to the model's fault flag); every collection found by build_lists is a well-formed rdf:first/rest chain with one rdf:rest per "
+                  "from /repo) are each described by a write_tree of their own and nothing stays deferred (deferred_all_written, "
+                  "nothing_left_deferred: unconditional, the loop bound is proved sufficient); streaming mode hands exactly the strict "
+                  "RDF-star statements to the formatter, in order, and is the identity on strict datasets (stream_keeps_exactly_strict, "
+                  "stream_strict_identity); every collection found by build_lists is a well-formed rdf:first/rest chain with one rdf:rest per "
                   "cell; labelling lemmas incl. every blank-node cycle has a labelled node. IndentSafe (accepted indentations are Turtle "
                   "white space) holds on the checked tree (indent_safe_holds; it was refuted before /repo d9e6461, finding C04-indent-unicode-ws). "
                   "The end-to-end statement (parse(render(D)) isomorphic to D) and 'every SubTree/Annotation subject is written, nothing twice' are NOT "
@@ -36,7 +38,9 @@ CONFIG = {
     "level_note": "Trusted: W3C Turtle grammar transcription (Model/TurtleTokens.lean) and C03's STRING_LITERAL_QUOTE reader (Model/NT.lean); "
                   "extract.py regex translator and tools/extractors/c04.py (recognises shipped/fixed text of five branches incl. the nesting cap and its constant, fails closed); "
                   "native_decide for the regex obligations; Rio's Turtle/TriG parsers and formatters (third party, only observed); the "
-                  "harness's isomorphism test. Streaming (non-pretty) mode is Rio's formatter: round-trip differential only. Generalized "
+                  "harness's isomorphism test. Streaming (non-pretty) mode: the Sophia glue (convert_triple, rio_format_*) is modelled "
+                  "(Model/StreamSer.lean; compared through the driver as o.kept and by the round trip against exactly the strict statements, "
+                  "also on generalized input); the text Rio's formatters write is third party: round-trip differential only. Generalized "
                   "RDF (blank-node / literal predicates, variables) is outside the property: model differential only, no oracle.",
     "tables": ["regexes", "prettyflags"],
     "lean_targets": ["SophiaProofs.Props.C04", "SophiaProofs.Audit.C04"],
@@ -53,7 +57,8 @@ CONFIG = {
         "unlabelled_sound_partial", "unlabelled_in_arcs", "unlabelled_one_graph",
         "cycle_tail_witness", "cycle_has_labelled", "cycle_has_labelled_holds", "cycle_has_labelled_refuted", "cycle_has_labelled_iff",
         "dataset_no_invention", "dataset_no_loss", "dataset_no_loss_wf", "every_subject_classified", "subject_types_no_invention",
-        "write_graph_roots_done", "roots_all_written_partial", "deferred_all_written_partial", "nothing_left_deferred",
+        "write_graph_roots_done", "roots_all_written_partial", "deferred_all_written", "nothing_left_deferred", "subtree_reached_written_partial",
+        "stream_keeps_exactly_strict", "stream_order", "stream_strict_identity", "stream_triples_strict_identity",
     ],
     "native_ok": [
         "integer_safe", "boolean_safe", "decimal_safe", "double_safe", "pn_local_safe", "pn_prefix_safe", "bnode_label_safe",
